@@ -53,6 +53,7 @@ theorem ks_replace {H : KHeap K} {x : KTx K} (h : KS H x) {w : K} {o q : Oid} (t
     · rfl
     · exact h.base_keep o' e
   base_refs := h.base_refs
+  wf_fwd := AMap.WF_set h.wf_fwd w q
   repl := by
     intro k ob e
     have hqb : q ≠ ob := fun eq => h.base_owner ob (h.base_refs k ob e) (eq ▸ hme)
